@@ -7,7 +7,8 @@
     input, [mon_pair] for two well-behaved ends). *)
 From RsM Require Import Lib.MachInt Model.Btp Model.BtpSpec
   Proofs.BtpCodec Proofs.BtpFacts Proofs.BtpHostile Proofs.BtpPair Proofs.BtpTheorems
-  Proofs.BtpHandshake.
+  Proofs.BtpHandshake Proofs.BtpFresh Proofs.BtpLive Model.BtpTimed Proofs.BtpTimedFacts
+  Model.BtpRing Proofs.BtpRingFacts.
 Open Scope N_scope.
 
 (** * A hostile peer: arbitrary bytes, at any time, interleaved with any local
@@ -48,7 +49,7 @@ Print Assumptions C18_header_roundtrip.
 Theorem C18_pair_safe : forall m w : N,
   20 <= m <= 244 -> 1 <= w <= 255 -> w * m + 1234 <= RX_CAP ->
   forall (c : cfg) (ver : N) (rel : bool) (ops : list sop),
-  mon_pair ops (snd (sys_run c (sys_established c ver m w rel) ops)) = true.
+  mon_pair_est ops (snd (sys_run c (sys_established c ver m w rel) ops)) = true.
 Proof. exact pair_safe. Qed.
 Print Assumptions C18_pair_safe.
 
@@ -61,7 +62,7 @@ Theorem C18_exactly_once_in_order : forall m w : N,
   (exists rest, submitted SA ops rs = fetched SB ops rs ++ rest) /\
   (exists rest, submitted SB ops rs = fetched SA ops rs ++ rest).
 Proof.
-  intros m w Hm Hw Hc c ver rel ops. apply mon_pair_in_order. apply pair_safe; assumption.
+  intros m w Hm Hw Hc c ver rel ops. apply mon_pair_in_order. right. apply pair_safe; assumption.
 Qed.
 Print Assumptions C18_exactly_once_in_order.
 
@@ -74,7 +75,7 @@ Theorem C18_honest_never_refused : forall m w : N,
           (snd (sys_run c (sys_established c ver m w rel) ops)).
 Proof.
   intros m w Hm Hw Hc c ver rel ops.
-  apply (pmon_run_answers ops ps_init [] []). apply pair_safe; assumption.
+  apply (pmon_run_answers ops ps_established [] []). apply pair_safe; assumption.
 Qed.
 Print Assumptions C18_honest_never_refused.
 
@@ -109,6 +110,30 @@ Theorem C18_ack_enabled : forall m w : N,
 Proof. exact ack_enabled. Qed.
 Print Assumptions C18_ack_enabled.
 
+(** * The ring buffer (utils/storage/ringbuf.rs) as the real ring - buffer,
+      start / end indices with wrap-around, non_empty flag - refines the byte
+      queue of the BTP model: a push that fits appends, a pop takes from the
+      front, len / free are those of the queue. *)
+Theorem C18_ring_push_refines : forall (cap : nat) (r : ring) (data : bytes),
+  (1 <= cap)%nat -> ring_wf cap r -> (length (ring_contents r) + length data <= cap)%nat ->
+  ring_wf cap (ring_push cap r data) /\ ring_contents (ring_push cap r data) = ring_contents r ++ data.
+Proof. intros cap r data Hc. apply ring_push_fits. exact Hc. Qed.
+Print Assumptions C18_ring_push_refines.
+
+Theorem C18_ring_pop_refines : forall (cap : nat) (r : ring) (want : nat),
+  (1 <= cap)%nat -> ring_wf cap r ->
+  ring_wf cap (fst (ring_pop r want)) /\
+  snd (ring_pop r want) = firstn want (ring_contents r) /\
+  ring_contents (fst (ring_pop r want)) = skipn want (ring_contents r).
+Proof. intros cap r want Hc. apply ring_pop_spec. exact Hc. Qed.
+Print Assumptions C18_ring_pop_refines.
+
+Theorem C18_ring_len_refines : forall (cap : nat) (r : ring),
+  (1 <= cap)%nat -> ring_wf cap r ->
+  ring_len r = length (ring_contents r) /\ ring_free cap r = (cap - length (ring_contents r))%nat.
+Proof. intros cap r Hc H. split; [eapply ring_len_contents; eassumption|apply ring_free_spec; assumption]. Qed.
+Print Assumptions C18_ring_len_refines.
+
 (** * The handshake: for every GATT MTU (or none) on both sides and both MTU
       negotiation modes, four steps from two fresh ends reach the state above,
       with a segment size and window inside the range of the theorems; and
@@ -122,18 +147,97 @@ Theorem C18_handshake_establishes : forall (c : cfg) (rel t1 t2 : bool),
 Proof. exact handshake_establishes. Qed.
 Print Assumptions C18_handshake_establishes.
 
-(** From two fresh ends through the real handshake, then any schedule. *)
-Theorem C18_fresh_pair_safe : forall (c : cfg) (rel t1 t2 : bool) (ops : list sop),
-  mon_pair ops
-    (snd (sys_run c
-            (fst (sys_run c (sys_fresh rel) [SPoll SA t1; SDeliver SB; SPoll SB t2; SDeliver SA]))
-            ops)) = true.
-Proof.
-  intros c rel t1 t2 ops.
-  destruct (handshake_establishes c rel t1 t2) as (E & Hm & Hw & Hc). cbv zeta in E.
-  rewrite E. apply pair_safe; assumption.
-Qed.
+(** From two fresh ends, EVERY schedule - also inside the handshake: messages
+    handed in before it completes, polls and fetches at any time, the responder
+    sending data while its response is still in flight.  (A repeated handshake
+    request cannot come from a well-behaved initiator; what it does to a
+    responder is part of [C18_hostile_safe]: the windows start clean.) *)
+Theorem C18_fresh_pair_safe : forall (c : cfg) (rel : bool) (ops : list sop),
+  mon_pair ops (snd (sys_run c (sys_fresh rel) ops)) = true.
+Proof. exact fresh_pair_safe. Qed.
 Print Assumptions C18_fresh_pair_safe.
+
+Theorem C18_fresh_exactly_once_in_order : forall (c : cfg) (rel : bool) (ops : list sop),
+  let rs := snd (sys_run c (sys_fresh rel) ops) in
+  (exists rest, submitted SA ops rs = fetched SB ops rs ++ rest) /\
+  (exists rest, submitted SB ops rs = fetched SA ops rs ++ rest).
+Proof. intros c rel ops. apply mon_pair_in_order. left. apply fresh_pair_safe. Qed.
+Print Assumptions C18_fresh_exactly_once_in_order.
+
+(** * No acknowledgement is ever lost; nothing ever gets stuck. *)
+
+(** In every reachable state, per direction: what the sender has outstanding,
+    less what the ACKs already on their way back will clear, is exactly the
+    segments in flight plus the segments the receiver still remembers owing
+    ([ack_level]).  (The monitor checks the receiver's half on every step:
+    [ack_level] = segments taken in since the last ACK put on the wire.) *)
+Theorem C18_no_lost_ack : forall m w : N,
+  20 <= m <= 244 -> 1 <= w <= 255 -> w * m + 1234 <= RX_CAP ->
+  forall (c : cfg) (ver : N) (rel : bool) (ops : list sop),
+  let s := fst (sys_run c (sys_established c ver m w rel) ops) in
+  chain_end (slast (send (sess (epA s)))) (w - slevel (send (sess (epA s)))) (acks_of (chBA s))
+    = nlen (chAB s) + rack_level (recv (sess (epB s))) /\
+  chain_end (slast (send (sess (epB s)))) (w - slevel (send (sess (epB s)))) (acks_of (chAB s))
+    = nlen (chBA s) + rack_level (recv (sess (epA s))).
+Proof. exact no_lost_ack. Qed.
+Print Assumptions C18_no_lost_ack.
+
+(** Deadlock freedom, for every window >= 1: in every reachable state some end
+    can move - a packet is waiting to be delivered, a message is waiting to be
+    fetched, or a poll with the ACK timer expired puts a segment on the wire. *)
+Theorem C18_no_deadlock : forall m w : N,
+  20 <= m <= 244 -> 1 <= w <= 255 -> w * m + 1234 <= RX_CAP ->
+  forall (c : cfg) (ver : N) (rel : bool) (ops : list sop),
+  let s := fst (sys_run c (sys_established c ver m w rel) ops) in
+  can_move c s SA \/ can_move c s SB.
+Proof. exact no_deadlock. Qed.
+Print Assumptions C18_no_deadlock.
+
+(** Where the old window-1 deadlock stands: before fix 8fd327b (the initiator did
+    not owe an ACK for the handshake response) the state after a handshake on
+    window 1 was stuck for every schedule - nothing handed in was ever put on the
+    wire or delivered.  A liveness defect, not in the safety part of C18; the
+    repaired code is covered by [C18_no_deadlock]. *)
+Theorem C18_window1_deadlock_before_fix : forall (c : cfg) (ver : N) (relB : bool) (ops : list sop),
+  let s0 := sys_established_noack c ver 20 1 relB in
+  fetched SA ops (snd (sys_run c s0 ops)) = [] /\ fetched SB ops (snd (sys_run c s0 ops)) = [] /\
+  chAB (fst (sys_run c s0 ops)) = [] /\ chBA (fst (sys_run c s0 ops)) = [].
+Proof. exact window1_deadlock_before_fix. Qed.
+Print Assumptions C18_window1_deadlock_before_fix.
+
+(** * Time: the scheduler may let any amount of time pass between steps; the
+      ACK timer of a poll is read off the clock (15 s), the idle time-out is 30 s. *)
+
+(** A timed run is an untimed run of its schedule, so every theorem above holds
+    for every timing. *)
+Theorem C18_timed_refines : forall (c : cfg) (ops : list top) (t : tsys),
+  t_sys (fst (trun c t ops)) = fst (sys_run c (t_sys t) (schedule_of c t ops)).
+Proof. exact trun_projects. Qed.
+Print Assumptions C18_timed_refines.
+
+(** Whoever owes an acknowledgement has its ACK deadline running ... *)
+Theorem C18_owed_ack_has_deadline : forall m w : N,
+  20 <= m <= 244 -> 1 <= w <= 255 -> w * m + 1234 <= RX_CAP ->
+  forall (c : cfg) (ver : N) (rel : bool) (t0 : N) (ops : list top) (x : side),
+  let t := fst (trun c (tsys_established c ver m w rel t0) ops) in
+  1 <= rack_level (recv (sess (ep (t_sys t) x))) -> received_at (clk_of t x) <> None.
+Proof. exact owed_ack_has_deadline. Qed.
+Print Assumptions C18_owed_ack_has_deadline.
+
+(** ... and at the deadline the next poll sends it (its application has taken
+    the complete messages, its own send window is not exhausted). *)
+Theorem C18_ack_by_deadline : forall m w : N,
+  20 <= m <= 244 -> 1 <= w <= 255 -> w * m + 1234 <= RX_CAP ->
+  forall (c : cfg) (ver : N) (rel : bool) (t0 : N) (ops : list top) (x : side) (r : N),
+  let t := fst (trun c (tsys_established c ver m w rel t0) ops) in
+  received_at (clk_of t x) = Some r -> r + ACK_TIMEOUT <= t_now t ->
+  1 <= rack_level (recv (sess (ep (t_sys t) x))) -> rmsgs (recv (sess (ep (t_sys t) x))) = 0 ->
+  1 <= slevel (send (sess (ep (t_sys t) x))) ->
+  exists b h p,
+    snd (tstep c t (TPoll x)) = Some (RBytes b) /\ hdr_decode b = Ok (h, p) /\
+    get_ack h = Some (rack_seq (recv (sess (ep (t_sys t) x)))).
+Proof. exact ack_by_deadline. Qed.
+Print Assumptions C18_ack_by_deadline.
 
 Theorem C18_handshake_request_valid : forall (s : session) (g : option N) (a : N) (h : hdr) (p : bytes) (s' : session),
   process_rx_handshake_req s g a h p = Ok s' ->
@@ -157,7 +261,7 @@ Theorem C18_monitor_sound : forall (ops : list sop) (rs : list (out * snap * sna
    (exists rest, submitted SB ops rs = fetched SA ops rs ++ rest)) /\
   Forall2 (fun o r => answer_ok o (fst (fst r))) ops rs.
 Proof.
-  intros ops rs H. split; [apply mon_pair_in_order; exact H|].
+  intros ops rs H. split; [apply mon_pair_in_order; left; exact H|].
   apply (pmon_run_answers ops ps_init [] []). exact H.
 Qed.
 Print Assumptions C18_monitor_sound.
